@@ -41,9 +41,10 @@ func init() {
 		},
 		Bound: func(tier string) string {
 			if tier == "thorough" {
-				return "all functions x arity 0..4; alphabets: arity 1-2 = 94 base atoms + depth-2 nested calls (9 templates x 31 inner calls + 22 set forms), arity 3 = 27 atoms, arity 4 = 12 atoms; nesting depth 2; 12 roots"
+				return "all functions x arity 0..4; alphabets: arity 1 = 96 base atoms + 337 depth-2 nested calls (9 templates x 35 inner calls + 22 set forms), arity 2 = every pair with at least one base atom, " +
+					"arity 3 = 29 atoms, arity 4 = 12 atoms; plus 10^3 + 10^4 sequences of state-changing steps under asm; nesting depth 2; 12 roots"
 			}
-			return "all functions x arity 0..4; alphabets: arity 1-2 = 94 atoms, arity 3 = 12 atoms, arity 4 = 6 atoms; nesting depth 1; 12 roots"
+			return "all functions x arity 0..4; alphabets: arity 1 = 96 atoms, arity 2 = 65 atoms, arity 3 = 14 atoms, arity 4 = 6 atoms; plus 10^3 sequences of state-changing steps under asm; nesting depth 1; 12 roots"
 		},
 	})
 }
@@ -193,7 +194,7 @@ func plainLiteral(v any, m *asmref.M) bool {
 // the same form (canonLits / canonCalls / canonPaths); finally try the earlier
 // (simpler) roots. The result is a canonical minimal witness, so that the many
 // argument vectors exposing one defect share a signature.
-func (e *env) reduce(fn string, arr []any, f finding) ([]any, finding) {
+func (e *env) reduce(fn string, arr []any, f finding) (string, []any, finding) {
 	saved := map[string]int64{}
 	for k, v := range e.cnt {
 		saved[k] = v
@@ -209,8 +210,13 @@ func (e *env) reduce(fn string, arr []any, f finding) ([]any, finding) {
 		e.cnt["reduction_evaluations"] += ev - saved["evaluations"]
 		e.cnt["evaluations"] = ev
 	}()
+	// the oracles that do not depend on what the outer function means allow
+	// two more steps: hoist a nested call to the top, and swap the outer
+	// function for the plain sequencer asm
+	structural := f.Disc == "nondeterministic" || f.Disc == "src-mutated" || f.Disc == "panic" ||
+		(f.Disc == "reprint-differs" && strings.Contains(f.Detail, "same-array"))
 	still := func(cand []any, ri int) (finding, bool) {
-		fs, _ := e.judgePlan(cand, fn, []int{ri})
+		fs, _ := e.judgePlan(cand, fnOf(cand, e.fns), []int{ri})
 		for _, g := range fs {
 			if g.key() == f.key() {
 				return g, true
@@ -219,11 +225,46 @@ func (e *env) reduce(fn string, arr []any, f finding) ([]any, finding) {
 		return finding{}, false
 	}
 	cur := arr
+	if f.Disc == "wrong-result" {
+		// blame the innermost call that is wrong by itself: an enclosing function
+		// that merely passes a wrong value (or a missing raise) on is not at fault
+		m := &asmref.M{Fns: e.fns}
+		for again := true; again; {
+			again = false
+			for _, a := range argsOf(fn, cur) {
+				if !m.IsCall(a) {
+					continue
+				}
+				inner := a.([]any)
+				fs, _ := e.judgePlan(inner, fnOf(inner, e.fns), []int{f.Root})
+				for _, g := range fs {
+					if g.Disc == "wrong-result" {
+						cur, fn, f, again = inner, fnOf(inner, e.fns), g, true
+						break
+					}
+				}
+				if again {
+					break
+				}
+			}
+		}
+	}
 	budget := 150
 	for changed := true; changed && budget > 0; {
 		changed = false
 		args := argsOf(fn, cur)
 		var cands [][]any
+		if structural {
+			m := &asmref.M{Fns: e.fns}
+			for _, a := range args {
+				if m.IsCall(a) {
+					cands = append(cands, a.([]any))
+				}
+			}
+			if fn != "asm" && len(args) > 0 {
+				cands = append(cands, planOf("asm", args))
+			}
+		}
 		for i := len(args) - 1; i >= 0; i-- {
 			rest := append(append([]any{}, args[:i]...), args[i+1:]...)
 			if fn == implicit && len(rest) == 0 {
@@ -246,7 +287,7 @@ func (e *env) reduce(fn string, arr []any, f finding) ([]any, finding) {
 			}
 		}
 		for _, cand := range cands {
-			if fn == implicit { // must stay an array without a leading function name
+			if fn == implicit && !structural { // must stay an array without a leading function name
 				if name, _ := cand[0].(string); e.fns[name] {
 					continue
 				}
@@ -254,6 +295,7 @@ func (e *env) reduce(fn string, arr []any, f finding) ([]any, finding) {
 			budget--
 			if g, ok := still(cand, f.Root); ok {
 				cur, f, changed = cand, g, true
+				fn = fnOf(cur, e.fns)
 				break
 			}
 			if budget <= 0 {
@@ -267,7 +309,17 @@ func (e *env) reduce(fn string, arr []any, f finding) ([]any, finding) {
 			break
 		}
 	}
-	return cur, f
+	return fn, cur, f
+}
+
+// fnOf names the function a plan array starts with.
+func fnOf(arr []any, fns map[string]bool) string {
+	if len(arr) > 0 {
+		if name, _ := arr[0].(string); name != "" && fns[name] {
+			return name
+		}
+	}
+	return implicit
 }
 
 func run(c *core.Ctx) {
@@ -285,6 +337,10 @@ func run(c *core.Ctx) {
 			alpha[ar] = append(alpha[ar], mustJSON(js))
 		}
 	}
+	nBase := len(alphabet(2, false)) + 0
+	if thorough {
+		nBase = len(baseAtoms)
+	}
 	caseIdx, judged := 0, 0
 	samples := 0
 	judge := func(fn string, args []any) {
@@ -300,13 +356,13 @@ func run(c *core.Ctx) {
 			}
 		}
 		for _, f := range fs {
-			min, g := e.reduce(fn, arr, f)
+			mfn, min, g := e.reduce(fn, arr, f)
 			js := toJSON(min)
-			cs := caseT{Fn: fn, Plan: js, Root: g.Root, Src: show(e.srcs[g.Root])}
+			cs := caseT{Fn: mfn, Plan: js, Root: g.Root, Src: show(e.srcs[g.Root])}
 			if o := toJSON(arr); o != js {
 				cs.Orig = o
 			}
-			c.Fail(e.sig(fn, min, g), cs, len(js)+g.Root, g.Exp, g.Obs)
+			c.Fail(e.sig(mfn, min, g), cs, len(js)+g.Root, g.Exp, g.Obs)
 		}
 	}
 outer:
@@ -322,7 +378,9 @@ outer:
 			al := alpha[ar]
 			idx := make([]int, ar)
 			for {
-				if c.Mine(caseIdx) {
+				if ar == 2 && idx[0] >= nBase && idx[1] >= nBase {
+					// thorough: depth-2 nested calls are paired with every base atom, not with each other
+				} else if c.Mine(caseIdx) {
 					args := make([]any, ar)
 					for k, i := range idx {
 						args[k] = al[i]
